@@ -341,23 +341,42 @@ def rule_w2(chk: Check):
             calls_ok = False
         chk.require(calls_ok, "W2-cache-hit", f"{inner}:miss-only", where,
                     "the wrapped rule may only run when the key is not cached")
-        # the miss path stores the result
+        # a miss stores what the rule returned — failures included — with the position reached, and the next call at the same
+        # position is answered from the cache without running the rule: decided by evaluating the wrapper from source around a
+        # fake rule body (plain wrapper: success / failure x arguments; left-recursive wrapper: every token stream of length <= 5
+        # for  r: r '+' 'n' | 'n'), tracing on and off.  A skipped store makes every enclosing rule repeat the sub-parse.
+        from .c17 import Crash, EvalError, eval_left_rec, eval_memoize, left_rec_expected
+        import itertools
         chk.count("W2-cache-hit")
-        stores = [n for n in ast.walk(fn) if isinstance(n, ast.Assign) and any(norm_stmt(t) == "self._cache[key]" for t in n.targets)]
-        chk.require(bool(stores), "W2-cache-hit", f"{inner}:store", where, "a miss must store (tree, endmark) under the key")
-        # ... on every path: whatever the rule returned (failures included) must be cached, otherwise each enclosing rule
-        # asks again for the same failing sub-parse
-        cfg = CFG(fn)
-        runs = [c.id for c in cfg.nodes if c.stmt is not None and c.kind == "stmt" and any(
-            isinstance(x, ast.Call) and isinstance(x.func, ast.Name) and x.func.id == "method" for x in ast.walk(c.stmt))
-            and not isinstance(c.stmt, (ast.FunctionDef,))]
-        final_stores = [c.id for c in cfg.nodes if c.stmt is not None and isinstance(c.stmt, ast.Assign) and any(
-            norm_stmt(t) == "self._cache[key]" for t in c.stmt.targets) and norm_stmt(c.stmt.value).startswith(("(tree, endmark)", "tree, endmark"))]
-        chk.count("W2-cache-hit")
-        ok = bool(runs) and bool(final_stores) and all(cfg.must_pass(r, [cfg.exit.id], final_stores) for r in runs)
-        chk.require(ok, "W2-cache-hit", f"{inner}:store-on-all-paths", where,
-                    "after running the rule body the result must be stored on every path (a skipped store — e.g. for failures, or only "
-                    "in one pass — makes every enclosing rule repeat the sub-parse: work multiplies per nesting level)")
+        bad, und = [], ""
+        try:
+            if inner == "memoize_wrapper":
+                for verbose in (False, True):
+                    for succ in (True, False):
+                        for args in ((), ("NUMBER",)):
+                            tree, endp, entry, second, level = eval_memoize(fn, verbose, succ, args)
+                            want_tree, want_end = (("T", args), 5) if succ else (None, 3)
+                            if tree != want_tree or endp != want_end or entry is None or tuple(entry) != (want_tree, want_end) or \
+                                    second != (0, True, True) or level != 0:
+                                bad.append((verbose, succ, args, tree, endp, entry, second))
+            else:
+                for n in range(0, 6):
+                    for stream in itertools.product("n+x", repeat=n):
+                        for verbose in (False, True):
+                            tree, endp, entry, second, level, depth = eval_left_rec(fn, verbose, stream)
+                            want = left_rec_expected(stream)
+                            if entry is None or tuple(entry) != (want[0], want[1]) or second != (0, True, True):
+                                bad.append(("".join(stream), verbose, entry, second))
+        except Crash as e:
+            bad.append(f"raises {e}")
+        except EvalError as e:
+            und = str(e)
+        if und:
+            chk.undecided("W2-cache-hit", f"{inner}:store-on-all-paths", where, f"not evaluable: {und}")
+        else:
+            chk.require(not bad, "W2-cache-hit", f"{inner}:store-on-all-paths", where,
+                        "after running the rule body the result must be stored on every path (a skipped store — e.g. for failures, or only "
+                        f"in one pass — makes every enclosing rule repeat the sub-parse: work multiplies per nesting level): {bad[:1]}")
     # parse(): second pass at most once, not inside a loop
     parser = repo.find_class(sub, "Parser")
     parse = repo.find_func(parser, "parse")
